@@ -140,20 +140,10 @@ class Model(nn.Module):
         strides = self.backbone.dec.current_strides
         self.head_layers = nn.ModuleList([])
         for head in self.heads:
-            in_channels = int(
-                round(
-                    self.backbone.max_channels
-                    / (
-                        self.backbone_config.filters_rate
-                        ** len(self.backbone.dec.decoder_stack)
-                    )
-                )
-            )
-            if head.output_stride != min_output_stride:
-                factor = strides.index(min_output_stride) - strides.index(
-                    head.output_stride
-                )
-                in_channels = in_channels * (self.backbone_config.filters_rate**factor)
+            # The head sits on the decoder block whose output stride is the head's
+            # output stride: its input width is that block's number of refine filters.
+            idx = strides.index(head.output_stride)
+            in_channels = self.backbone.dec.decoder_stack[idx].refine_convs_filters
             self.head_layers.append(head.make_head(x_in=int(in_channels)))
 
     @classmethod
